@@ -229,6 +229,7 @@ impl Execute for ast::CaseClauseCommand'''),
 '''),
     ],
     'U4g': [
+        ('asynchronous-list-leaves-the-previous-status', 'brush-core/src/interp.rs', "                result = ExecutionResult::success();\n                shell.set_last_exit_status(0);\n", "                result = ExecutionResult::success();\n"),
         ('list-continues-after-nonnormal', IN, '''                shell.set_last_exit_status(result.exit_code.into());
             }
 
@@ -253,6 +254,7 @@ fn spawn_async_ao_list_in_task'''),
         ('async-status-not-zero', IN, '''                    writeln!(params.stderr(shell), "{job_formatted}")?;
                 }
 
+                // The exit status of an asynchronous list is zero.
                 result = ExecutionResult::success();''', '''                    writeln!(params.stderr(shell), "{job_formatted}")?;
                 }
 '''),
@@ -315,13 +317,30 @@ fn spawn_async_ao_list_in_task'''),
         }
 
         // Spawn all''', '''        // Spawn all'''),
-        ('errexit-applied-to-negated', IN, '''        if !params.suppress_errexit && !self.bang {
-            shell.apply_errexit_if_enabled(&mut result);''', '''        if !params.suppress_errexit || self.bang {
+        ('errexit-applied-to-negated', IN, '''        if !params.suppress_errexit && !self.bang && failure_is_its_own {
+            shell.apply_errexit_if_enabled(&mut result);''', '''        if (!params.suppress_errexit || self.bang) && failure_is_its_own {
             shell.apply_errexit_if_enabled(&mut result);'''),
-        ('errexit-applied-when-suppressed', IN, '''        if !params.suppress_errexit && !self.bang {
-            shell.apply_errexit_if_enabled(&mut result);''', '''        if !self.bang {
+        ('errexit-applied-when-suppressed', IN, '''        if !params.suppress_errexit && !self.bang && failure_is_its_own {
+            shell.apply_errexit_if_enabled(&mut result);''', '''        if !self.bang && failure_is_its_own {
             shell.apply_errexit_if_enabled(&mut result);'''),
-        ('err-trap-in-exempt-context', IN, 'if !result.is_success() && !params.suppress_errexit && !self.bang {', 'if !result.is_success() && !self.bang {'),
+        ('grouping-command-triggers-errexit-by-itself', IN, '''        if !params.suppress_errexit && !self.bang && failure_is_its_own {
+            shell.apply_errexit_if_enabled(&mut result);''', '''        if !params.suppress_errexit && !self.bang {
+            shell.apply_errexit_if_enabled(&mut result);'''),
+        ('grouping-command-fires-the-err-trap-by-itself', IN, 'if !result.is_success() && !params.suppress_errexit && !self.bang && failure_is_its_own {', 'if !result.is_success() && !params.suppress_errexit && !self.bang {'),
+        ('subshell-counted-as-grouping', IN, '''            ast::CompoundCommand::BraceGroup(_)
+                | ast::CompoundCommand::ForClause(_)''', '''            ast::CompoundCommand::BraceGroup(_)
+                | ast::CompoundCommand::Subshell(_)
+                | ast::CompoundCommand::ForClause(_)'''),
+        ('until-loop-not-counted-as-grouping', IN, '''                | ast::CompoundCommand::WhileClause(_)
+                | ast::CompoundCommand::UntilClause(_),''', '''                | ast::CompoundCommand::WhileClause(_),'''),
+        ('last-stage-of-a-longer-pipeline-counted-as-grouping', IN, '''    if pipeline.seq.len() != 1 {
+        return false;
+    }
+''', '''    if pipeline.seq.is_empty() {
+        return false;
+    }
+'''),
+        ('err-trap-in-exempt-context', IN, 'if !result.is_success() && !params.suppress_errexit && !self.bang && failure_is_its_own {', 'if !result.is_success() && !self.bang && failure_is_its_own {'),
         ('bang-inversion-wrong', IN, 'ExecutionExitCode::from(if result.is_success() { 1 } else { 0 });', 'ExecutionExitCode::from(if result.is_success() { 0 } else { 1 });'),
         ('status-set-before-inversion', IN, '''        if self.bang && !result.is_return_or_exit() {
             result.exit_code = ExecutionExitCode::from(if result.is_success() { 1 } else { 0 });
@@ -334,7 +353,7 @@ fn spawn_async_ao_list_in_task'''),
         if self.bang && !result.is_return_or_exit() {
             result.exit_code = ExecutionExitCode::from(if result.is_success() { 1 } else { 0 });
         }'''),
-        ('errexit-never-applied', IN, '''        if !params.suppress_errexit && !self.bang {
+        ('errexit-never-applied', IN, '''        if !params.suppress_errexit && !self.bang && failure_is_its_own {
             shell.apply_errexit_if_enabled(&mut result);
         }
 ''', ''),
